@@ -62,8 +62,8 @@ def fn_props_of_unit(gen):
             continue
         anchor = it['anchor']
         props = set(it['props']) or unit_props
-        if anchor.startswith('fn '):
-            m[anchor.split()[1]] = {'props': props, 'item': it}
+        if anchor.startswith('fn ') or anchor.startswith('top fn '):
+            m[anchor.split()[-1]] = {'props': props, 'item': it}
         elif anchor.startswith('impl') or anchor.startswith('trait'):
             ty = impl_type_name(anchor)
             alias = None
@@ -444,7 +444,7 @@ def check_property(prop, reg, args, seed):
                 continue
             for ins in it['inserted']:
                 if ins[0] == 'T4' and len(samples) < 8 and (not it['props'] or prop in it['props'] or any(prop in (v or []) for v in it['fn_props'].values())):
-                    samples.append({'obligation': '%s/%s%s' % (u, impl_type_name(it['anchor']) + '::' if not it['anchor'].startswith('fn') else '', ins[1] or it['anchor'].split()[1]),
+                    samples.append({'obligation': '%s/%s%s' % (u, impl_type_name(it['anchor']) + '::' if not it['anchor'].startswith('fn') else '', ins[1] or it['anchor'].split()[-1]),
                                     'source': '%s:%d-%d' % (it['file'], it['span_lines'][0], it['span_lines'][1]), 'contract': ' '.join(ins[2])[:600]})
     if not samples:
         samples = [{'obligation': o['id'], 'status': o['status'], 'backend': o['backend']} for o in obligations[:6]]
